@@ -2889,6 +2889,8 @@ class RedunBackendDb(RedunBackend):
             )
             for key, value in tags
         ]
+        # The same key-value pair may be given more than once: keep one row per tag_hash.
+        tag_rows = list({tag_row.tag_hash: tag_row for tag_row in tag_rows}.values())
 
         if new:
             # Here, we force the tags to be current by walking down the
